@@ -535,8 +535,43 @@ def run(ctx):
     _C17.redacts_fallback_rule(ctx, w, "C18.redaction-siblings")
     # ---- nothing is read as a borrowed string -----------------------------------------------------------------------------------------------
     no_borrowed_str_rule(ctx, w, "C18.no-borrowed-str")
+    defaults_rule(ctx, w, "C18.defaults", req)
+    # ---- serde visitors accept transient strings -----------------------------------------------------------------------------------
+    ctx.rule("C18.visitors", "every serde Visitor of the workspace that accepts a string (or bytes) in a specialised form (visit_borrowed_str, "
+                             "visit_string / visit_borrowed_bytes, visit_byte_buf) also implements the general visit_str / visit_bytes: serde_json hands "
+                             "escaped strings (e.g. an object key written with \\u0070) over as transient &str, which falls to the default `invalid type` "
+                             "error otherwise")
+    vis = {}
+    for pth in w.fn_index:
+        mm = re.match(r"^<(.+) as serde_core::de::Visitor<'[\w_]+>>::(visit_\w+)$", pth)
+        if mm:
+            vis.setdefault(mm.group(1), set()).add(mm.group(2))
+    n_vis = 0
+    for ty, meths in sorted(vis.items()):
+        for special, general in ((("visit_borrowed_str", "visit_string"), "visit_str"), (("visit_borrowed_bytes", "visit_byte_buf"), "visit_bytes")):
+            if any(x in meths for x in special):
+                n_vis += 1
+                ctx.check(general in meths, "C18.visitors", f"C18.visitors:{ty}:{general}", w.where(w.fn(f"<{ty} as serde_core::de::Visitor<'de>>::{[x for x in special if x in meths][0]}")) if False else "",
+                          bad_msg=f"{ty} implements {sorted(x for x in special if x in meths)} but not {general}: strings that the deserializer cannot borrow "
+                                  f"from the input (escaped JSON strings) are rejected")
+    str_visitors = [t for t, ms in vis.items() if "visit_str" in ms]
+    ctx.floor("visitors accepting strings", len(str_visitors), 100)
+    # the key visitor of Raw::get_field in particular
+    kv = [t for t in vis if t.endswith("get_field::FieldVisitor<'_>") or "get_field::FieldVisitor" in t]
+    ctx.check(bool(kv) and all("visit_str" in vis[t] for t in kv), "C18.visitors", "C18.visitors:Raw::get_field:key-visitor", "",
+              bad_msg=f"the key visitor of Raw::get_field implements {sorted(vis[kv[0]]) if kv else '?'}, not visit_str: a top-level key written with an escape makes get_field fail")
+    if ctx.tier == "thorough":
+        from .. import witness
+        witness.check(ctx, "C18.witness", {"C18RawFields": "Raw<T> fields are accessible from another crate: the JSON text can be replaced without going through from_json/new"})
+    ctx.assumptions += ["content fixpoint under a second round trip for each of ~270 content types (hand-written serde helpers) is not decided"]
+    ctx.samples += [{"enum": "AnyStateEvent", "arm": "m.room.aliases", "parsed_as": "StateEvent<RoomAliasesEventContent>", "variant": "RoomAliases"}]
+
+
+def defaults_rule(ctx, w, rule, req, floor=20, only=None):
+    """The values a `skip_serializing_if` predicate lets a derived Serialize omit are the values the derived Deserialize fills in for a missing field.
+    `req`: type -> fields its Deserialize requires (from the symmetry scan), `only`: optional filter on the type path."""
     # ---- what may be omitted is what a missing field is read as ------------------------------------------------------------------------
-    ctx.rule("C18.defaults", "per derived Serialize/Deserialize pair: the values a `skip_serializing_if` predicate lets Serialize omit are, with multiplicity, the "
+    ctx.rule(rule, "per derived Serialize/Deserialize pair: the values a `skip_serializing_if` predicate lets Serialize omit are, with multiplicity, the "
                              "values Deserialize fills in for a missing field (`is_default` <-> Default::default(), `x == 50` <-> a default function returning 50, ...): "
                              "otherwise a present value is silently replaced by another one on a round trip")
     from collections import Counter
@@ -574,13 +609,47 @@ def run(ctx):
                             out = "default"
                         elif re.fullmatch(r"[\w:]+\(\)", v):
                             cands = [k for k in w.fn_index if k.endswith("::" + v[:-2].split("::")[-1])]
+                            if len(cands) > 1:      # several modules have a function of that name: the one next to the predicate is meant
+                                cands = [k for k in cands if k.rsplit("::", 1)[0] == name.rsplit("::", 1)[0]]
                             out = fn_value(cands[0]) if len(cands) == 1 else None
                         else:
                             out = v
+                    elif f["body"]["argc"] == 1 and re.fullmatch(r"[\w:]+\(x\)==.+", r):
+                        # the predicate looks at a projection of the value only (`x.as_secs() == 20`): it also omits values that are not the default
+                        out = "any value with " + r
                 elif len(ps) == 2 and f["body"]["argc"] == 1:
                     # `self == &Self::default()` style methods (derived PartialEq against the default value)
                     calls = [M.callee_name(c) for _, c in M.calls(f["body"])]
                     if any(c.endswith("Default>::default") for c in calls) and any(c.endswith("::eq") for c in calls):
+                        out = "default"
+        if out is None and name.endswith("::is_default") and w.lookup(name) is not None and "body" in w.lookup(name):
+            # `self.a == 0 && self.b == 0` against a derived Default whose fields are all Default::default() of integer types
+            ty0 = name[:-len("::is_default")]
+            fd_ = w.lookup(f"<{ty0} as core::default::Default>::default")
+            if fd_ is not None and "body" in fd_:
+                dexc = D.Dex(w.lookup, adt_discr=w.adt_discr, ctors=w.ctors)
+                try:
+                    pd = [p_ for p_ in dexc.paths(fd_, []) if p_.kind == "ret"]
+                    pp = [p_ for p_ in dexc.paths(w.lookup(name), [D.sym("self")]) if p_.kind == "ret"]
+                except D.Unrecognised:
+                    pd, pp = [], []
+                if len(pd) == 1 and pp:
+                    fields = dict(re.findall(r"(\w+)=(Default::default\(\)|0|false)", D.show(pd[0].ret)))
+                    n_f = D.show(pd[0].ret).count("=")
+                    zero = set()
+                    good = len(fields) == n_f and n_f > 0
+                    for p_ in pp:
+                        atoms = [(D.show_atom(a_), t_) for a_, t_ in p_.conds]
+                        if all(t_ for _, t_ in atoms) and D.show(p_.ret) != "False":
+                            for t in [a_ for a_, _ in atoms] + [D.show(p_.ret)]:
+                                mm = re.fullmatch(r"self\.(\w+)==0", t)
+                                if mm:
+                                    zero.add(mm.group(1))
+                                elif t != "True":
+                                    good = False
+                        elif D.show(p_.ret) != "False":
+                            good = False
+                    if good and zero == set(fields):
                         out = "default"
         if out is None and name.endswith("::is_default") and w.lookup(name) is not None and "body" in w.lookup(name):
             # `T::is_default(&self)`: accepted as "the Default value" when it consults the same default-value functions as T's Default / new
@@ -599,7 +668,7 @@ def run(ctx):
 
     skipv, defv, unknown = {}, {}, {}
     for fn in w.all_fns():
-        if "body" not in fn:
+        if "body" not in fn or (only is not None and not only(fn["path"])):
             continue
         p = fn["path"]
         ms = re.search(r"<impl serde_core::ser::Serialize for (.*)>::serialize$", p)
@@ -628,6 +697,13 @@ def run(ctx):
                     v = fn_value(n_)
                     if v is not None:
                         defv.setdefault(md.group(1), Counter())[v] += 1
+    def norm(counter):
+        out_ = Counter()
+        for k_, n_ in counter.items():
+            out_[re.sub(r"^Vec\((.*)\)$", r"\1", k_)] += n_
+        return out_
+    skipv = {t_: norm(c_) for t_, c_ in skipv.items()}
+    defv = {t_: norm(c_) for t_, c_ in defv.items()}
     n_types = 0
     for ty in sorted(skipv):
         if ty not in defv and ty not in req and not any(k != "none" for k in skipv[ty]):
@@ -637,38 +713,9 @@ def run(ctx):
         n_types += 1
         short = {c: n_ for c, n_ in skipv[ty].items() if c != "none" and n_ > defv.get(ty, Counter()).get(c, 0)}
         if ty in unknown:
-            ctx.unrecognised("C18.defaults", f"C18.defaults:{ty}", "", f"skip predicate(s) {sorted(unknown[ty])} not evaluated")
+            ctx.unrecognised(rule, f"{rule}:{ty}", "", f"skip predicate(s) {sorted(unknown[ty])} not evaluated")
         else:
-            ctx.check(not short, "C18.defaults", f"C18.defaults:{ty}", "",
+            ctx.check(not short, rule, f"{rule}:{ty}", "",
                       bad_msg=f"{ty}: Serialize may omit {dict(skipv[ty])} (value -> number of fields) but a missing field is read as {dict(defv.get(ty, {}))}: "
                               f"{ {c: n_ for c, n_ in short.items()} } field(s) come back with a different value (e.g. a level of 50 omitted and read back as 0)")
-    ctx.floor("types examined for skip/default agreement", n_types, 20)
-    # ---- serde visitors accept transient strings -----------------------------------------------------------------------------------
-    ctx.rule("C18.visitors", "every serde Visitor of the workspace that accepts a string (or bytes) in a specialised form (visit_borrowed_str, "
-                             "visit_string / visit_borrowed_bytes, visit_byte_buf) also implements the general visit_str / visit_bytes: serde_json hands "
-                             "escaped strings (e.g. an object key written with \\u0070) over as transient &str, which falls to the default `invalid type` "
-                             "error otherwise")
-    vis = {}
-    for pth in w.fn_index:
-        mm = re.match(r"^<(.+) as serde_core::de::Visitor<'[\w_]+>>::(visit_\w+)$", pth)
-        if mm:
-            vis.setdefault(mm.group(1), set()).add(mm.group(2))
-    n_vis = 0
-    for ty, meths in sorted(vis.items()):
-        for special, general in ((("visit_borrowed_str", "visit_string"), "visit_str"), (("visit_borrowed_bytes", "visit_byte_buf"), "visit_bytes")):
-            if any(x in meths for x in special):
-                n_vis += 1
-                ctx.check(general in meths, "C18.visitors", f"C18.visitors:{ty}:{general}", w.where(w.fn(f"<{ty} as serde_core::de::Visitor<'de>>::{[x for x in special if x in meths][0]}")) if False else "",
-                          bad_msg=f"{ty} implements {sorted(x for x in special if x in meths)} but not {general}: strings that the deserializer cannot borrow "
-                                  f"from the input (escaped JSON strings) are rejected")
-    str_visitors = [t for t, ms in vis.items() if "visit_str" in ms]
-    ctx.floor("visitors accepting strings", len(str_visitors), 100)
-    # the key visitor of Raw::get_field in particular
-    kv = [t for t in vis if t.endswith("get_field::FieldVisitor<'_>") or "get_field::FieldVisitor" in t]
-    ctx.check(bool(kv) and all("visit_str" in vis[t] for t in kv), "C18.visitors", "C18.visitors:Raw::get_field:key-visitor", "",
-              bad_msg=f"the key visitor of Raw::get_field implements {sorted(vis[kv[0]]) if kv else '?'}, not visit_str: a top-level key written with an escape makes get_field fail")
-    if ctx.tier == "thorough":
-        from .. import witness
-        witness.check(ctx, "C18.witness", {"C18RawFields": "Raw<T> fields are accessible from another crate: the JSON text can be replaced without going through from_json/new"})
-    ctx.assumptions += ["content fixpoint under a second round trip for each of ~270 content types (hand-written serde helpers) is not decided"]
-    ctx.samples += [{"enum": "AnyStateEvent", "arm": "m.room.aliases", "parsed_as": "StateEvent<RoomAliasesEventContent>", "variant": "RoomAliases"}]
+    ctx.floor(f"types examined for skip/default agreement ({rule})", n_types, floor)
